@@ -28,8 +28,25 @@ def fld(variant, name):
 def real_bools(row):
     """the path's boolean decisions without drop-flag tests"""
     out = []
-    for t, lab in row.bools:
+    body = getattr(row, "_body", None)
+    for dt, lab, bb in row.path.conds:
+        if dt[0] == "discr":
+            continue
+        t = nosite(deep_strip(dt))
         if t[0] in ("phi", "const"):
+            continue
+        term = body.blocks[bb]["term"] if body is not None else None
+        ints = term is not None and term["k"] == "switch" and term.get("discr_ty") in ("usize", "u8", "u16", "u32", "u64", "isize", "i8", "i16", "i32", "i64")
+        if ints:
+            # `match x { 0 => .., 1 => .., _ => .. }`: read as the chain x == 0, x == 1, .. (the arm taken is the first true one)
+            vals = sorted(v for v, _ in term["targets"])
+            ty = term.get("discr_ty") or "usize"
+            for v in vals:
+                eq = ("bin", "Eq", t, ("const", ty, v))
+                if lab == v:
+                    out.append((eq, True))
+                    break
+                out.append((eq, False))
             continue
         out.append((t, cond_truth(lab)))
     return tuple(out)
@@ -41,6 +58,10 @@ def grouped(body):
     for r in table(body, max_paths=400000):
         if r.end != "return":
             continue
+        try:
+            r._body = body
+        except AttributeError:
+            pass
         key = (r.sel.get(SELF), real_bools(r))
         g.setdefault(key, []).append(r)
     return g
@@ -479,6 +500,39 @@ def R5_overrides(ctx):
                     ok_type = ok_type or (result_variant(r.ret) == "Err" and agg_payload(r.ret)[2] == "UnexpectedFeatureType")
                 elif differs:
                     ok_keep = ok_keep or (result_variant(r.ret) == "Ok" and agg_payload(r.ret) == ("tuple", (("field", ("arg", 2), "0"), ("field", ("arg", 2), "1"))))
+    if not (ok_unknown and ok_type and ok_keep):
+        # the same validation written as a loop over the user's features (one turn per feature)
+        for h, _bl in b.natural_loops():
+            try:
+                rows = [r for r in iteration_table(b, h) if r.kind != "diverge"]
+            except Exception:
+                continue
+            if not rows or not all(r.conds for r in rows):
+                continue
+            d0 = clean(rows[0].conds[0][0])
+            if not (d0[0] == "discr" and d0[1][0] == "call" and re.search(r"::next$", d0[1][1])):
+                continue
+            ELEM = d0[1]
+            u = t_ = k_ = False
+            for r in rows:
+                look = [(clean(dt), l) for dt, l, _ in r.conds if clean(dt)[0] == "discr" and clean(dt)[1][0] == "call" and clean(dt)[1][1].startswith("std::collections::HashMap::<K, V, S, A>::get")]
+                if not look:
+                    continue
+                lab = look[0][1]
+                retv = nosite(deep_strip(r.ret)) if r.ret is not None else None
+                if lab == "None":
+                    u = u or (r.kind == "return" and retv is not None and contains(retv, lambda q: q[0] == "agg" and q[2] == "UnknownStateVariableName") and (is_err_value(retv) or result_variant(retv) == "Err"))
+                elif lab == "Some":
+                    ft = [(op, a_, b_) for op, a_, b_ in r.facts if all(x[0] == "call" and x[1].endswith("get_feature_type") for x in (clean(a_), clean(b_)))]
+                    differs = [f for f in ft if f[0] == "Ne"]
+                    same = [f for f in ft if f[0] == "Eq"]
+                    if differs:
+                        t_ = t_ or (r.kind == "return" and retv is not None and contains(retv, lambda q: q[0] == "agg" and q[2] == "UnexpectedFeatureType"))
+                    elif same and r.kind == "back":
+                        pushes = [clean(v) for _, k2, v in r.sites if k2 and k2.endswith("Vec::<T, A>::push")]
+                        want = ("tuple", (("field", ELEM, "0"), ("field", ELEM, "1")))
+                        k_ = k_ or (len(pushes) == 1 and (pushes[0][2][1] == want or pushes[0][2][1] == ELEM))
+            ok_unknown, ok_type, ok_keep = ok_unknown or u, ok_type or t_, ok_keep or k_
     ctx.check(ok_unknown, "unknown-name=>Err", "a user feature that is not a model feature is not rejected with UnknownStateVariableName", b.where())
     ctx.check(ok_type, "different-type=>Err", "a user feature of another feature type is not rejected with UnexpectedFeatureType", b.where())
     ctx.check(ok_keep, "same-type=>kept", "a valid override is not passed on as (name, feature)", b.where())
@@ -491,7 +545,13 @@ def R5_overrides(ctx):
         ext = nosite(deep_strip(tm.operand(exts[0].args[1], exts[0].bb)))
         user_read = lambda t: any(x[0] == "const" and x[2] == "state_features" for x in subterms(t))
         model_read = lambda t: any(x[0] == "call" and x[1].endswith("::state_features") for x in subterms(t))
-        ok_order = model_read(base) and not user_read(base) and user_read(ext)
+        ext_user = user_read(ext)
+        if not ext_user:
+            # the overrides collected by a loop with one push per user feature
+            for e in elementwise_builds(b):
+                if e["form"] == "loop" and e.get("sink", "").endswith("::push") and clean(e["sink_recv"]) == clean(ext) and user_read(e["src"]) and not model_read(e["src"]):
+                    ext_user = True
+        ok_order = model_read(base) and not user_read(base) and ext_user
         ret = agg_payload(oks[0].ret)
         ok_order = ok_order and unmut(ret) == unmut(base)
     ctx.check(ok_order, "model-features-then-overrides", "the returned list is not [model features..., user overrides...] (an override placed first is overwritten by the model's default)", b.where(), detail="model_features ++ user_features")
